@@ -37,3 +37,7 @@ VARIANTS += [
     v("c01-special-case", "    z[0] = w[0] * y[0]\n", "    z[0] = w[0] * y[0]\n    if w[1] == 0.0:\n        d[0] = d[0] + 1e-9\n", note="special-casing a zero weight"),
     v("c01-float32", "    z = zeros(n)\n", "    z = zeros(n, dtype=float32)\n", note="narrow work array"),
 ]
+
+VARIANTS += [
+    v("c01-early-return", "    z = zeros(n)\n", "    z = zeros(n)\n    if w.sum() <= 1:\n        z[:] = y\n        return z\n", names="R-STRAIGHT", note="seeded C01a: weights of small total mass return the input"),
+]
